@@ -62,9 +62,13 @@ func schemeOf(mode int) string {
 }
 
 type hcfg struct {
-	backend    string
-	extractor  string // header form query param cookie
-	keyLookup  bool   // configure through KeyLookup (true) or an Extractor func (false)
+	backend   string
+	extractor string // header form query param cookie
+	keyLookup bool   // configure through KeyLookup (true) or an Extractor func (false)
+	// decoy: with an explicit Extractor, Config.KeyLookup is set to this string naming ANOTHER source.
+	// Documented as ignored ("KeyLookup will be ignored if Extractor is explicitly set"): the
+	// extractor in effect, and with it the cookie-comparison rule, is cfg.extractor.
+	decoy      string
 	singleUse  bool
 	idle       time.Duration
 	cookieName string
@@ -78,8 +82,8 @@ type hcfg struct {
 }
 
 func (h *hcfg) String() string {
-	return fmt.Sprintf("backend=%s extractor=%s keylookup=%v singleuse=%v idle=%s cookie=%s mode=%s host=%s trusted=%q reusectx=%v",
-		h.backend, h.extractor, h.keyLookup, h.singleUse, h.idle, h.cookieName, smNames[h.mode], h.host, h.trustedCfg, h.reuseCtx)
+	return fmt.Sprintf("backend=%s extractor=%s keylookup=%v decoy-keylookup=%q singleuse=%v idle=%s cookie=%s mode=%s host=%s trusted=%q reusectx=%v",
+		h.backend, h.extractor, h.keyLookup, h.decoy, h.singleUse, h.idle, h.cookieName, smNames[h.mode], h.host, h.trustedCfg, h.reuseCtx)
 }
 
 type entry struct {
@@ -139,6 +143,7 @@ func newWorld(cfg *hcfg, faults []vstore.Fault) *world {
 			cc.KeyLookup = "cookie:" + cfg.cookieName
 		}
 	} else {
+		cc.KeyLookup = cfg.decoy
 		switch cfg.extractor {
 		case "header":
 			cc.Extractor = fcsrf.FromHeader(hdrName)
@@ -163,6 +168,7 @@ func newWorld(cfg *hcfg, faults []vstore.Fault) *world {
 		cc.Storage = cloneStore{w.store}
 	case bKeyRef:
 		w.store = vstore.New()
+		w.store.KeepKeyRef = true
 		w.ref = &refStore{s: w.store}
 		cc.Storage = w.ref
 	case bMemory:
@@ -536,8 +542,29 @@ func genCfg(r *gen.Rand, backends []string) *hcfg {
 	if r.Chance(1, 4) {
 		cfg.cookieName = r.Ident(3, 8)
 	}
+	if !cfg.keyLookup && r.Chance(3, 4) {
+		cfg.decoy = gen.Pick(r, decoysFor(cfg.extractor, cfg.cookieName))
+	}
 	cfg.req = hostTuple(schemeOf(cfg.mode), cfg.host)
 	return cfg
+}
+
+// decoysFor lists KeyLookup strings that name a source other than the explicit extractor's.
+func decoysFor(extractor, cookieName string) []string {
+	all := map[string][]string{
+		"header": {"header:X-Other-Token", "header:" + hdrName},
+		"form":   {"form:other", "form:" + fieldName},
+		"query":  {"query:other", "query:" + fieldName},
+		"param":  {"param:other", "param:" + paramName},
+		"cookie": {"cookie:" + cookieName, "cookie:other_cookie"},
+	}
+	var out []string
+	for _, src := range []string{"header", "form", "query", "param", "cookie"} {
+		if src != extractor {
+			out = append(out, all[src]...)
+		}
+	}
+	return out
 }
 
 func hostTuple(scheme, hostHdr string) otuple {
